@@ -108,6 +108,9 @@ def _float(eng, args, kwargs, node):
             return Sym(zterm(v, REAL), REAL)
         if v.t == REAL:
             return v
+        if v.t == STR and getattr(v, 'src', None) is not None:
+            # float(str(n)) of an integer n: the integer as a real (exact for |n| < 2**53, A3)
+            return Sym(z3.ToReal(v.src), REAL)
         raise Unsupported('float() of symbolic string')
     if v is None:
         raise PyRaise('TypeError', 'float() argument', node=node)
